@@ -232,3 +232,9 @@ package cryptoutils
 //@   trusted
 //@   ensures okPoint(result.Pub) && fresh(result.Pub) && fresh(result.Pri) && fresh(result.Pub.X) && fresh(result.Pub.Y)
 //@   assigns nothing
+
+// secp192r1 built from its published parameters (ICAO id 8). Trusted (the parameter values are not checked).
+//@ func EllipticP192
+//@   trusted
+//@   ensures result != nil && icaoCurve(ref(result)) == 8
+//@   assigns nothing
